@@ -180,8 +180,26 @@ func tinyJobs(prop, tier string) []JobSpec {
 	return nil
 }
 
+// tinyScopeJobs: bounded-exhaustive histories with explicit scope creation over a 4-scope tree (tiny.go).
+func tinyScopeJobs(prop, tier string) []JobSpec {
+	q := tier == "quick"
+	switch prop {
+	case "C08", "C12", "C05", "C01":
+		if q {
+			return []JobSpec{{"tinyscope", tinySTotal(4)}}
+		}
+		return []JobSpec{{"tinyscope", tinySTotal(5)}, {"tinyscopesamp", 500000}}
+	case "C16":
+		if q {
+			return []JobSpec{{"difftinyscope:c16", tinySTotal(4)}}
+		}
+		return []JobSpec{{"difftinyscope:c16", tinySTotal(5)}}
+	}
+	return nil
+}
+
 func allJobsFor(prop, tier string) []JobSpec {
-	return append(jobsFor(prop, tier), tinyJobs(prop, tier)...)
+	return append(append(jobsFor(prop, tier), tinyJobs(prop, tier)...), tinyScopeJobs(prop, tier)...)
 }
 
 func levelFor(prop string) string {
@@ -214,9 +232,22 @@ func exhaustiveFor(prop, tier string) string {
 			tiny = fmt.Sprintf("every history of at most 3 API calls over %s, each run as a differential pair (%d pairs)", alpha, tinyTotal(3))
 		}
 	}
+	switch prop {
+	case "C08", "C12", "C05", "C01", "C16":
+		k := 5
+		if tier == "quick" {
+			k = 4
+		}
+		ts := fmt.Sprintf("every history of at most %d API calls (scope creations included as calls) over the %d-call alphabet of tiny.go's 4-scope tree (root, child, grandchild, second child; 3 constructor signatures in every scope and exported, decorators of a value and of a group, invokes from 3 scopes), %d histories", k, len(tinySAlphabet), tinySTotal(k))
+		if tiny != "" {
+			tiny += "; " + ts
+		} else {
+			tiny = ts
+		}
+	}
 	if prop == "C05" {
 		if tier == "quick" {
-			return "every digraph with at most 5 nodes (33.6 million, self-loops included) through the real cycle search"
+			return "every digraph with at most 5 nodes (33.6 million, self-loops included) through the real cycle search; " + tiny
 		}
 		return "every digraph with at most 5 nodes (33.6 million, self-loops included) through the real cycle search; every dig program with at most 3 constructors over the listed scope trees, export flags, orders and edge encodings; " + tiny
 	}
